@@ -58,6 +58,14 @@ def family(rp):
     f.add("initialiser-supertype", "def x: Int := 5.5", "reject")
     f.add("method-call-conforming", "class A\n    def m(self, a: Int) -> Int => a\ndef z := A()\ndef r: Int := z.m(1)", "accept")
     f.add("method-call-wrong-type", "class A\n    def m(self, a: Int) -> Int => a\ndef z := A()\ndef r: Int := z.m(\"s\")", "reject")
+    f.add("method-call-missing-argument", "class A\n    def m(self, a: Int) -> Int => a\ndef z := A()\ndef r: Int := z.m()", "reject")
+    f.add("method-call-surplus-argument", "class A\n    def m(self, a: Int) -> Int => a\ndef z := A()\ndef r: Int := z.m(1, 2)", "reject")
+    f.add("method-call-default-omitted", "class A\n    def m(self, a: Int, b: Int := 2) -> Int => a\ndef z := A()\ndef r: Int := z.m(1)", "accept")
+    f.add("method-call-second-wrong-type", "class A\n    def m(self, a: Int, b: Int) -> Int => a\ndef z := A()\ndef r: Int := z.m(1, \"s\")", "reject")
+    f.add("method-call-subtype", "class A\n    def m(self, a: Float) -> Float => a\ndef z := A()\ndef r: Float := z.m(1)", "accept")
+    f.add("method-call-supertype", "class A\n    def m(self, a: Int) -> Int => a\ndef z := A()\ndef r: Int := z.m(1.5)", "reject")
+    f.add("operator-wrong-operand", "def r := 1 + \"s\"", "reject")
+    f.add("operator-conforming", "def r: Int := 1 + 2", "accept")
     f.add("nested-call-wrong-type", fn + "def r: Int := f(f(\"s\"))", "reject")
     f.add("call-in-branch-wrong-type", fn + "if True then\n    f(\"s\")\n", "reject")
     return f
@@ -142,6 +150,95 @@ def ob_call_parameters(run, mir, rp, fam):
     names = {"self_arg.is_some": z3.Bool("self_arg.is_some")}
     e2.prove(run, ob, ex, [], conj(claims), names, fam.as_replay("call-parameters:", only=["call-", "method-call", "nested-call"]))
     run.samples.append({"obligation": ob.id, "paths": len(ends), "loop_back_paths": sum(1 for p in ends if p.kind == "loop_back")})
+
+
+UNIFY_FUN_RS = "src/check/constrain/unify/function.rs"
+EXPECTED_RS = "src/check/constrain/constraint/expected.rs"
+
+
+def ob_method_parameters(run, mir, rp, fam):
+    ob = run.ob("method-parameters", "E2", "unify_fun_arg (method and operator calls), one iteration of the formal/actual zip from an "
+                "arbitrary loop state: surplus actual => Err; missing actual without default => Err, with default => continue without "
+                "constraint; formal without type => Err; otherwise the constraint that is queued has parent = the declared parameter "
+                "type at the argument's position and (for every formal but self) child = the argument", ["unify_fun_arg (loop body)"])
+    fn = e2.find1(mir, file=UNIFY_FUN_RS, name="unify_fun_arg")
+    ex = Exec(mir, max_paths=5000)
+    st = State()
+    args = [Ref(ex.new_cell(st, opq("entity_name", "TrueName"))), Ref(ex.new_cell(st, opq("name", "StringName"))),
+            opq("ctx_f_args", "&[FunctionArg]"), opq("args", "&[Expected]"), Ref(ex.new_cell(st, opq("constr", "Constraints"))),
+            opq("pos", "Position")]
+    ends = e2.run_kernel(run, ex, fn, args, st)
+    fa = e2.rust_struct(ckern.ARG_RS, "FunctionArg")
+    exf = e2.rust_struct(EXPECTED_RS, "Expected")
+    i_ty, i_def = fa.index("ty"), fa.index("has_default")
+    claims, n_push = [], 0
+    for p in ends:
+        if p.kind == "panic":
+            if "attempt to compute" in p.detail:      # `added += 1` cannot overflow for any real argument list
+                continue
+            raise Unsupported(f"panic path {p.detail[:80]}")
+        c = conj(p.cond)
+        nx = [ev for ev in calls(p, "Iterator::next") if "zip" in str(ev["args"][0]).lower() or True]
+        if not nx:
+            claims.append(z3.Not(c))
+            continue
+        s = p.state
+        item = nx[0]["ret"]          # the zip element of this iteration (a later `next` belongs to the tuple-element loop)
+        TY = "EitherOrBoth<&FunctionArg, &Expected>"
+        d_opt = ex.discr(s, item, "Option<EitherOrBoth>")
+        eob = ex.project(s, ex.project(s, item, ("v", "Some")), ("f", 0), TY)
+        d = ex.discr(s, eob, TY)
+        both = ex.project(s, eob, ("v", "Both"))
+        formal = ex.project(s, both, ("f", 0), "&FunctionArg")
+        actual = ex.project(s, both, ("f", 1), "&Expected")
+        left = ex.project(s, ex.project(s, eob, ("v", "Left")), ("f", 0), "&FunctionArg")
+        ty_b = ex.project(s, formal, ("f", i_ty), "Option<Name>")
+        d_ty = ex.discr(s, ty_b, "Option<Name>")
+        has_def = ex.project(s, left, ("f", i_def), "bool")
+        pushes = calls(p, "Constraints::push") + calls(p, "Constraints::push_constr")
+        kind = result_kind(p)
+        some = d_opt == 1
+        spec = [z3.Implies(d_opt == 0, z3.BoolVal(kind == "Ok" and not pushes)),
+                z3.Implies(z3.And(some, d == 2), z3.BoolVal(kind == "Err")),
+                z3.Implies(z3.And(some, d == 1, z3.Not(has_def)), z3.BoolVal(kind == "Err")),
+                z3.Implies(z3.And(some, d == 1, has_def), z3.BoolVal(p.kind == "loop_back" and not pushes)),
+                z3.Implies(z3.And(some, d == 0, d_ty == 0), z3.BoolVal(kind == "Err"))]
+        plain = calls(p, "Constraints::push")
+        if p.kind == "loop_back" and plain:
+            n_push += 1
+            a = plain[0]
+            ty_name = ex.project(s, ex.project(s, ty_b, ("v", "Some")), ("f", 0), "Name")
+            pos_a = ex.project(s, actual, ("f", exf.index("pos")), "Position")
+            inter = [ev for ev in calls(p, "Name::is_interchangeable") if z3.eq(ev["argvals"][0], ex.to_val(s, ty_name))]
+            parent_ok, child_ok = z3.BoolVal(False), z3.BoolVal(False)
+            pv = ex.read_ref(s, a["args"][2]) if isinstance(a["args"][2], Ref) else a["args"][2]
+            cv = ex.read_ref(s, a["args"][3]) if isinstance(a["args"][3], Ref) else a["args"][3]
+            for nw in calls(p, "Expected::new"):
+                second = nw["args"][1]
+                second = ex.read_ref(s, second) if isinstance(second, Ref) else second
+                if z3.eq(ex.to_val(s, nw["ret"]), ex.to_val(s, pv)) and isinstance(second, Agg) and second.variant == "Type" and inter:
+                    parent_ok = z3.And(ex.to_val(s, second.fields[0]) == ex.to_val(s, inter[0]["ret"]),
+                                       nw["argvals"][0] == ex.to_val(s, pos_a))
+            if calls(p, "Name::as_name"):
+                child_ok = z3.BoolVal(True)       # self: the receiver type, derived from the entity (C07's subject)
+            else:
+                child_ok = ex.to_val(s, cv) == ex.to_val(s, actual)
+            spec.append(z3.Implies(z3.And(some, d == 0, d_ty == 1), z3.And(z3.BoolVal(len(plain) == 1), parent_ok, child_ok)))
+        elif p.kind == "loop_back" and not pushes and not calls(p, "Iterator::flatten"):
+            # (the flatten paths are the documented exception: a tuple handed to __str__ queues one constraint per element
+            #  in an inner loop instead)
+            spec.append(z3.Implies(z3.And(some, d == 0, d_ty == 1), z3.BoolVal(False)))
+        claims.append(z3.Implies(c, conj(spec)))
+    if not n_push:
+        raise Unsupported("no path queues a constraint")
+    import os
+    if os.environ.get("VERIF_DEBUG"):
+        for p, cl in zip([q for q in ends if q.kind != "panic"], claims):
+            r, m, _, _ = e2.solve(ex, [z3.Not(cl)])
+            if r != z3.unsat:
+                print("FAIL", p.kind, result_kind(p), [ev["name"] for ev in p.events][-8:], [str(x)[:100] for x in p.cond][-4:])
+    e2.prove(run, ob, ex, [], conj(claims), {}, fam.as_replay("method-parameters:", only=["method-call", "operator-"]))
+    run.samples.append({"obligation": ob.id, "paths": len(ends), "paths_with_constraint": n_push})
 
 
 def ob_return(run, mir, rp, fam):
@@ -368,7 +465,7 @@ def run(run):
                "outside: that a violation is still caught in every nesting context (branch forking in ConstrBuilder); the accepted-exactly-when direction for whole programs")
     run.trusted += ["rustc nightly MIR dump", "mirsym MIR semantics", "z3"]
     run.bounds = {"paths": "all paths of each kernel with loops cut at their headers"}
-    for f in (ob_call_parameters, ob_return, ob_id_from_var, ob_fun_body, ob_unify_type):
+    for f in (ob_call_parameters, ob_method_parameters, ob_return, ob_id_from_var, ob_fun_body, ob_unify_type):
         try:
             f(run, mir, rp, fam)
         except Unsupported as e:
